@@ -81,3 +81,66 @@ func chainHash(variant, i int) uint32 {
 
 // spreadHash spreads the fillers over the buckets.
 func spreadHash(i int) uint32 { return uint32(i+1) * 0x9E3779B1 }
+
+// Pre-fill modes.
+const (
+	modeNone   = 0
+	modeSpread = 1
+	modeChain  = 2
+	modeMixed  = 3
+)
+
+var modeName = [4]string{"empty", "spread", "chain", "mixed"}
+
+// fillerHashes returns the hashes of the nfill filler keys of a start table meant to hold n entries.
+//
+//	spread: spread over the buckets;
+//	chain:  all in the bucket chain of the colliding universe keys, for every table size;
+//	mixed:  8 fillers (7 for n = 12) in that chain for every table size, the others in the same chain
+//	        only until the table doubles next (they differ from the universe hash in bit log2(buckets)):
+//	        the doubling that an insertion into the full start table triggers leaves the universe's new
+//	        chain exactly full (8 entries, no vacant slot), while the old chain had vacant slots.
+func fillerHashes(mode, uni, n, nfill int) []uint32 {
+	out := make([]uint32, nfill)
+	base := uint32(uniH0)
+	if uni != 0 {
+		base = uniH1
+	}
+	switch mode {
+	case modeSpread:
+		for j := range out {
+			out[j] = spreadHash(j)
+		}
+	case modeChain:
+		for j := range out {
+			out[j] = chainHash(uni, j)
+		}
+	case modeMixed:
+		same := 8
+		if n == 12 {
+			same = 7
+		}
+		if same > nfill {
+			same = nfill
+		}
+		split := nfill - same
+		bit := uint32(1) // n <= 13: two buckets before the doubling
+		switch {
+		case n > 26:
+			bit = 3
+		case n > 13:
+			bit = 2
+		}
+		s, t := 0, 0
+		for j := range out {
+			if (j%2 == 0 && s < same) || t >= split {
+				out[j] = base&0xFFFF | uint32(j+5)<<16
+				s++
+			} else {
+				out[j] = (base&0xFFFF ^ 1<<bit) | uint32(j+5)<<16
+				t++
+			}
+		}
+	}
+	return out
+}
